@@ -22,6 +22,11 @@ PINNED = {
 }
 
 
+CANONICAL = ("(* canonical order written because the translator REJECTED the source of this run *)\n"
+             "From Coq Require Import List.\nImport ListNotations.\nRequire Import V.C36.Model.\n"
+             "Definition server_all_order : list sstep := [StConnects; StRecv; StRx; StTx; StSend].\n")
+
+
 def dotted(node):
     if isinstance(node, ast.Name):
         return node.id
@@ -66,8 +71,36 @@ def inherits_unchanged(tree, cls, names):
     raise Unsupported("class %s not found" % cls)
 
 
+def pin_connects_loop(tree):
+    """TcpServerStack.serviceConnects must be: handler.serviceConnects(); for ca, ix in
+    handler.ixes.items(): [if ix.cutoff: closeConnection(ca); continue] [if ca not in haRemotes:
+    create + addRemote] [if timeout...: closeConnection] -- the model's p_connects"""
+    fn = method(tree, "TcpServerStack", "serviceConnects")
+    body = [st for st in fn.body if not (isinstance(st, ast.Expr) and isinstance(st.value, ast.Constant))]
+    if len(body) != 2 or not isinstance(body[1], ast.For):
+        raise Unsupported("serviceConnects: expected one call and one for loop")
+    if not (isinstance(body[0], ast.Expr) and isinstance(body[0].value, ast.Call)
+            and dotted(body[0].value.func) == "self.handler.serviceConnects"):
+        raise Unsupported("serviceConnects: first statement is not self.handler.serviceConnects()")
+    loop = body[1]
+    if ast.unparse(loop.iter) != "self.handler.ixes.items()" or loop.orelse:
+        raise Unsupported("serviceConnects: loop is not over self.handler.ixes.items()")
+    if len(loop.body) != 3 or not all(isinstance(st, ast.If) and not st.orelse for st in loop.body):
+        raise Unsupported("serviceConnects: loop body is not three plain ifs")
+    cut, rem, tmo = loop.body
+    if ast.unparse(cut.test) != "ix.cutoff" or len(cut.body) != 2 or \
+            ast.unparse(cut.body[0]) != "self.closeConnection(ca)" or not isinstance(cut.body[1], ast.Continue):
+        raise Unsupported("serviceConnects: cut-off branch is not 'closeConnection(ca); continue'")
+    if ast.unparse(rem.test) != "ca not in self.haRemotes" or len(rem.body) != 2 or \
+            ast.unparse(rem.body[1]) != "self.addRemote(remote)":
+        raise Unsupported("serviceConnects: remote creation branch changed")
+    if [ast.unparse(st) for st in tmo.body] != ["self.closeConnection(ca)"]:
+        raise Unsupported("serviceConnects: timeout branch changed")
+
+
 def translate(source):
     tree = ast.parse(source)
+    pin_connects_loop(tree)
     seq = call_sequence(method(tree, "TcpServerStack", "serviceAll"))
     steps = []
     for c in seq:
@@ -92,7 +125,11 @@ def selftest():
     bad = []
     ok = ("class Stack:\n def serviceAllRx(self):\n  self.serviceReceives()\n  self.serviceRxPkts()\n  self.serviceRxMsgs()\n  self.serviceTimers()\n"
           " def serviceAllTx(self):\n  self.serviceTxMsgs()\n  self.serviceTxPkts()\nclass RemoteStack(Stack):\n pass\n"
-          "class TcpServerStack(RemoteStack):\n def serviceAll(self):\n  '''doc'''\n%s")
+          "class TcpServerStack(RemoteStack):\n def serviceConnects(self):\n  self.handler.serviceConnects()\n"
+          "  for ca, ix in self.handler.ixes.items():\n   if ix.cutoff:\n    self.closeConnection(ca)\n    continue\n"
+          "   if ca not in self.haRemotes:\n    remote = devicing.IpRemoteDevice(stack=self, ha=ca)\n    self.addRemote(remote)\n"
+          "   if ix.timeout > 0.0 and ix.timer.expired:\n    self.closeConnection(ca)\n"
+          " def serviceAll(self):\n  '''doc'''\n%s")
     good = "  self.serviceConnects()\n  self.handler.serviceReceivesAllIx()\n  self.serviceAllRx()\n"
     try:
         if translate(ok % good)[1] != ["StConnects", "StRecv", "StRx"]:
@@ -106,4 +143,9 @@ def selftest():
             bad.append("accepted %r" % frag)
         except Unsupported:
             pass
+    try:
+        translate((ok % good).replace("    continue\n", "    break\n"))
+        bad.append("accepted a serviceConnects loop that breaks after closing")
+    except Unsupported:
+        pass
     return bad
